@@ -368,8 +368,18 @@ def _nonzero_order_test(tt, meta, meta_node):
         if not (src and src[0] == "comp" and len(src[4]) == 1 and not src[4][0][2]):
             return None
         direct = (src[3], src[4][0][1])
-    ea = edge_attr(direct[0])
     elem = direct[1]
+    op = cmp_[1][0]
+    # the attribute dicts of all incident edges:  attrs['order'] for attrs in meta.adj[meta_node].values()
+    if direct[0] == ("sub", elem, ("const", "order")) and elem[0] == "iter":
+        mv = method_call(strip_wrappers(elem[2]), "values")
+        if mv and not mv[2] and mv[0] in (("sub", ("attr", meta, "adj"), meta_node), ("sub", meta, meta_node), ("sub", ("attr", meta, "_adj"), meta_node)):
+            if fname == "all" and op == "==":
+                return True if neg else False
+            if fname == "any" and op in ("!=", ">"):
+                return False if neg else True
+            return None
+    ea = edge_attr(direct[0])
     if not ea or ea[0] != meta or ea[2] != ("const", "order"):
         return None
     if ea[1] not in (("tuple", (meta_node, elem)), ("tuple", (elem, meta_node))):
